@@ -51,4 +51,10 @@ transform on a point) -/
 theorem current_rc_is_the_image_of_the_centre (a3 : V3 ℝ → V3 ℝ) (c3 : V3 ℝ) (a2 : V2 ℝ → V2 ℝ) (c2 : V2 ℝ) :
     GenRs.rc3_current_rc a3 c3 = a3 c3 ∧ GenRs.rc2_current_rc a2 c2 = a2 c2 := ⟨rfl, rfl⟩
 
+/-! ### `RotationMatrices::from_rotation` (whole-body pattern) -/
+
+/-- every rotation — however small — is decomposed by `to_wpr` and rebuilt from exactly the angles it returned, in that
+    order; together with `to_wpr_roundtrip` / `to_wpr_gimbal_roundtrip` above: the rebuilt matrices are the rotation's -/
+theorem from_rotation_uses_the_decomposed_angles (w p r : ℝ) : GenRs.from_rotation_angles w p r = (w, p, r) := rfl
+
 end C08U
